@@ -65,10 +65,12 @@ ANN_TAGS = {"quick": [[], ["t0"], ["oov", "t1"], ["t0", "t1"], ["t1", "t0"]],
 # predicted (tag, score) lists
 VECS = {
     # the last list stays within 'vocabulary scores sum to <= 1' while all its scores together exceed 1
-    "quick": [[["t0", 0.5]], [["t0", 0.25], ["t1", 0.5]], [["t1", 0.5], ["oov", 0.25]], [["t0", 0.5], ["t1", 0.25], ["oov", 0.75]]],
+    "quick": [[["t0", 0.5]], [["t0", 0.25], ["t1", 0.5]], [["t1", 0.5], ["oov", 0.25]], [["t0", 0.5], ["t1", 0.25], ["oov", 0.75]],
+              # vocabulary scores that sum to 1 in float32 and to slightly more than 1 in float64
+              [["t0", 0.4], ["t1", 0.6]]],
     "thorough": [[], [["t0", 0.25]], [["t1", 0.25]], [["t0", 0.5]], [["t1", 0.5]], [["t0", 0.25], ["t1", 0.25]],
                  [["t0", 0.5], ["t1", 0.25]], [["t0", 0.25], ["t1", 0.5]], [["t0", 0.5], ["t1", 0.5]],
-                 [["t1", 0.5], ["oovt", 0.5]], [["t0", 0.5], ["t1", 0.25], ["oov", 0.75]]],
+                 [["t1", 0.5], ["oovt", 0.5]], [["t0", 0.5], ["t1", 0.25], ["oov", 0.75]], [["t0", 0.4], ["t1", 0.6]]],
 }
 GKEYS = {"quick": ["none", "A", "B", "C"], "thorough": ["none", "A", "B", "C"]}
 
